@@ -12,8 +12,8 @@ for id in C02 C03 C04 C10 C14 C17 C18; do
 done
 for pair in "c02_no_dup_check:C02" "c04_reading_nolock:C04" "c10_xyz_short_final_frame:C10" "c14_cursor_shared_again:C14" "c17_no_break_after_failure:C17" "c18_no_hash_comparison:C18"; do
   m=${pair%%:*}; id=${pair##*:}
-  KEEP_OUT=1 tools/mutant.sh tools/mutants/$m.diff $id quick >/tmp/selftest.$m.log 2>&1; rc=$?
-  echo "mutant $m vs $id: exit $rc (want 1)"
+  REPLAY_CHECK=1 KEEP_OUT=1 tools/mutant.sh tools/mutants/$m.diff $id quick >/tmp/selftest.$m.log 2>&1; rc=$?
+  echo "mutant $m vs $id: exit $rc (want 1; 4 = a replay did not reproduce on the changed tree)"
   [ $rc -eq 1 ] || fail=1
   out=$(grep -o "outputs kept in .*" /tmp/selftest.$m.log | sed 's/outputs kept in //')
   f=$(ls $out/replays/$id/*.json 2>/dev/null | head -1)
